@@ -72,6 +72,10 @@ def gen_case(idx: int, seed: int, tier: str) -> Any:
                 "waiters": n, "burst": rng.choice([0, 3, 49, 50, 51, 60, 120]), "order": order, "yields": [rng.randint(0, 2) for _ in range(n)],
                 "publishers": rng.choice([1, 2, 3]), "second_burst": rng.choice([0, 0, 55]), "listener_queue": rng.choice([None, 1, 3]), "two_trees": rng.random() < 0.3, "double": rng.random() < 0.4}
     tree = e2.gen_tree(rng, wait_heavy=True, max_nodes=rng.choice([4, 6, 10]), p_remap=0.3, with_services=False)
+    if rng.random() < 0.04:
+        # a very wide component: 33-130 children that all wait at once for what the child declared last publishes
+        fan = rng.choice([33, 65, 70, 130])
+        tree = e2.add_funnel(e2.gen_tree(rng, max_depth=1, max_nodes=fan + 2, root_fan=fan, with_services=False, wait_heavy=True), rng)
     return {"backend": rng.choice(["asyncio", "trio"]), "sched_seed": rng.randrange(1 << 30), "shuffle": rng.random() < 0.5,
             "timeout": rng.choice([None, 1e6]), "tree": tree}
 
